@@ -35,6 +35,14 @@ type Engine struct {
 	reachMemo map[*ssa.Function]map[string]bool
 	constInit map[string]*ssa.Const
 	constInitN map[string]int
+	localsBase map[string]map[string]string
+}
+
+func (e *Engine) localsBaseline() map[string]map[string]string {
+	if e.localsBase == nil {
+		e.localsBase = loadLocalsBaseline()
+	}
+	return e.localsBase
 }
 
 func loadEngine(repo string, patterns []string, extraContractFiles []string) (*Engine, error) {
